@@ -79,6 +79,9 @@ func vh_RO() {
 			}
 		} else {
 			vCoverIf(true, "read-kept-pending")
+			// C18.resolve (progress): a read that may be served is served by this wake-up
+			servable := vAnd(committed, vAnd(op.readIndex <= pre.applied, vOr(vAnd(op.OperationType == LinearizableReadOnly, op.quorumVerified), op.OperationType == LeaseBasedReadOnly)))
+			vAssert(!servable, "C15|C18.servable-read-is-answered")
 		}
 	}
 	vAssert(served == len(n.fsm.applied), "C05.every-applied-read-answered")
